@@ -505,7 +505,7 @@ def setup():
 def run(chk):
     quick = chk.tier == "quick"
     chk.level = "proof"      # schema enum; the partial nature is stated in assume and in the manifest
-    chk.prove(["extract/Extract_ED.vo"])
+    chk.prove(["extract/Extract_ED.vo"], extra_props=["Properties_C07_statics.v"])     # no hidden state in StatesClassification / Symmetrizer (translator/gen_statics.py)
     chk.trusted += ["harness/h_ed.cpp + ed_common.h, tools/edlib.py, the full-space oracle coq/theories/EDSpec.v at binary64 (ocaml/driver_ed.ml)",
                     "Eigen's self-adjoint solver (each run's eigen-decomposition is certified by the oracle: CERT record)"]
     chk.assume += ["C08 is claimed partial: independence of the eigenbasis inside degenerate subspaces and the 4-chains of TwoParticleGF::prepare are "
